@@ -1,4 +1,7 @@
 import Vata.Lang
+import Vata.Proofs.Compl
+import Vata.Proofs.ComplTotal
+import Vata.Proofs.Sanitize
 /-!
 # C06 – Complement accepts exactly the trees over the alphabet the automaton rejects
 
@@ -16,9 +19,19 @@ import Vata.Lang
 * **Reference.**  `isComplM C A Sg fuel` decides this for a *given* candidate `C` (the automaton the real `Complement`
   returned, the alphabet being the symbol dictionary) by profile saturation over `C`, `A` and the one-state automaton
   `univ Sg` that accepts exactly the trees over `Sg`.
-* **Model of the code.**  There is none: the top-down determinisation-like construction of
-  `ExplicitDownwardComplementation::Compute` is not modelled; the property is established for the real code by
-  comparing its result with the reference on generated inputs.  All theorems below are about the reference.
+* **Model of the code** (`Vata/Compl.lean`).  `Compl.complTD A Sg fuel` mirrors `ExplicitTreeAutCore::Complement`:
+  `ExplicitDownwardComplementation::Compute` instantiated with the identity preorder, followed by `RemoveUselessStates`.
+  A macro-state is a sorted duplicate-free list `P` of states of `A`, read "the tree is accepted from none of the states
+  in `P`"; `stateCache` is the list of macro-states in discovery order (number = position, the initial one is the set of
+  final states, number `0` = the final state of the result); for the picked macro-state and every symbol `f/n` of `Sg` the
+  distinct children tuples `W` of the `f`-rules with parent in `P` are collected and every choice function
+  `W → {0..n-1}` (enumerated as `ChoiceFunction::next` does) yields one rule `f(P₀..Pₙ₋₁) → P`; the special cases of the
+  code (`W` empty, rank 0) are mirrored.  `Compl.tdRun` is the work-list alone; `complTD` returns its result after the
+  Boolean check `tdCertB` (certify-then-trust) and after `removeUseless`.  `none` = fuel exhausted (one unit per
+  macro-state); the check never refuses (`C06_exploration_certified`).  The alphabet `Sg` is a parameter of the model: it
+  stands for the content of the on-the-fly symbol dictionary at the time of the call.
+* **Second reference** `Compl.complRef A Sg fuel`: the textbook construction (bottom-up determinisation over `Sg`,
+  completed, final = the profiles without a final state of `A`), an independent executable complement.
 -/
 namespace Vata.Props
 open Vata
@@ -44,12 +57,113 @@ theorem C06_universe_exact (Sg : List (Nat × Nat)) (t : Tree) : accepts (univ S
 example : overSig [(0, 0), (2, 1)] (.node 2 [.node 0 []]) = true ∧ overSig [(0, 0), (2, 1)] (.node 2 []) = false ∧
     overSig [(0, 0), (2, 1)] (.node 1 []) = false := by decide
 
+/-! ### the model of `Complement` -/
+
+/-- every automaton the model of `Complement` returns is the complement of `A` over `Sg`: on the trees over `Sg` it
+accepts exactly those `A` rejects, and it accepts no tree that is not over `Sg` -/
+theorem C06_model_exact (A : TA) (Sg : List (Nat × Nat)) (fuel : Nat) (C : TA) (h : Compl.complTD A Sg fuel = some C) :
+    ∀ t, (overSig Sg t = true → accepts C t = !accepts A t) ∧ (overSig Sg t = false → accepts C t = false) :=
+  Compl.complTD_spec h
+
+-- a nondeterministic automaton (`a` is read into two states) over `{a/0, f/2}`; with a symbol `g/1` unused by it
+example : (Compl.complTD Compl.Ex.aLeft Compl.Ex.sg 20).isSome = true ∧
+    (Compl.complTD Compl.Ex.aLeft Compl.Ex.sg3 50).isSome = true := by decide +kernel
+
+/-- "accepted by exactly one of `A` and `Complement(A)`", literally -/
+theorem C06_exactly_one (A : TA) (Sg : List (Nat × Nat)) (fuel : Nat) (C : TA) (h : Compl.complTD A Sg fuel = some C)
+    (t : Tree) (ht : overSig Sg t = true) :
+    (accepts A t = true ∧ accepts C t = false) ∨ (accepts A t = false ∧ accepts C t = true) := by
+  have := (Compl.complTD_spec h t).1 ht
+  cases hA : accepts A t with
+  | true => rw [hA] at this; exact Or.inl ⟨rfl, this⟩
+  | false => rw [hA] at this; exact Or.inr ⟨rfl, this⟩
+
+example : overSig Compl.Ex.sg (.node 1 [.node 0 [], .node 0 []]) = true ∧
+    accepts Compl.Ex.aLeft (.node 1 [.node 0 [], .node 0 []]) = true ∧
+    accepts Compl.Ex.aLeft (.node 0 []) = false := by decide
+
+/-- the model is total: with `2^|Q_A| + 1` units of fuel (one per macro-state) or more it returns an automaton – which
+is then the complement –, for every `A` and every alphabet -/
+theorem C06_model_total (A : TA) (Sg : List (Nat × Nat)) :
+    (∀ fuel, 2 ^ A.states.length + 1 ≤ fuel → ∃ C, Compl.complTD A Sg fuel = some C) ∧
+    (∃ C, Compl.complTD A Sg (2 ^ A.states.length + 1) = some C ∧
+      ∀ t, (overSig Sg t = true → accepts C t = !accepts A t) ∧ (overSig Sg t = false → accepts C t = false)) :=
+  ⟨fun _ h => Compl.complTD_total h, Compl.complTD_correct A Sg⟩
+
+example : 2 ^ Compl.Ex.aLeft.states.length + 1 ≤ 9 := by decide
+-- the bound is observed: two units do not suffice for `aND`
+example : (Compl.complTD Compl.Ex.aND Compl.Ex.sg 2).isNone = true := by decide
+
+/-- the work-list proper (no final check involved): whenever it finishes, the cache and the rules it built pass the
+certificate check – the cache starts with the set of final states, is closed, and the rules are exactly the ones the
+cache prescribes.  So the model answers `none` only when the fuel is exhausted, and what it returns is the trimmed
+automaton on the rules of the work-list with final state `0` -/
+theorem C06_exploration_certified (A : TA) (Sg : List (Nat × Nat)) (fuel : Nat) :
+    (∀ st, Compl.tdRun A Sg fuel = some st → Compl.tdCertB A Sg st = true) ∧
+    Compl.complTD A Sg fuel = (Compl.tdRun A Sg fuel).map (fun st => removeUseless ⟨st.rules, [0]⟩) :=
+  ⟨fun _ h => Compl.tdRun_cert h, Compl.complTD_eq⟩
+
+-- four macro-states, eight rules
+example : ((Compl.tdRun Compl.Ex.aLeft Compl.Ex.sg 20).map (fun st => (st.cache, st.rules.length))) =
+    some ([[2], [0], [], [1]], 8) := by decide
+
+/-- the result of the model has no useless state or rule (the final `RemoveUselessStates`) -/
+theorem C06_result_trimmed (A : TA) (Sg : List (Nat × Nat)) (fuel : Nat) (C : TA)
+    (h : Compl.complTD A Sg fuel = some C) : allUsefulB C = true := by
+  rw [Compl.complTD_eq] at h
+  cases hr : Compl.tdRun A Sg fuel with
+  | none => rw [hr] at h; cases h
+  | some st =>
+    rw [hr] at h
+    simp only [Option.map_some, Option.some.injEq] at h
+    subst h
+    exact San.allUsefulB_complete (San.allGood_removeUseless _)
+
+-- `A` accepts everything over `sg`: the raw construction has rules, the trimmed complement is empty
+example : (Compl.complTD Compl.Ex.aAll Compl.Ex.sg 50).map (fun C => (C.rules.length, C.final)) = some (0, []) := by
+  decide
+
+/-! ### the second reference and the agreement of all three -/
+
+/-- the textbook construction `complRef` returns a complement whenever it returns, and it returns for every fuel from
+`2^|Q_A|` on -/
+theorem C06_reference_construction_exact (A : TA) (Sg : List (Nat × Nat)) :
+    (∀ fuel C, Compl.complRef A Sg fuel = some C →
+      ∀ t, (overSig Sg t = true → accepts C t = !accepts A t) ∧ (overSig Sg t = false → accepts C t = false)) ∧
+    (∀ fuel, 2 ^ A.states.length ≤ fuel → ∃ C, Compl.complRef A Sg fuel = some C) :=
+  ⟨fun _ _ h => Compl.complRef_spec h, fun _ h => Compl.complRef_total h⟩
+
+example : (Compl.complRef Compl.Ex.aLeft Compl.Ex.sg3 20).isSome = true := by decide +kernel
+
+/-- the model of the code and the textbook construction accept the same trees, and the decider `isComplM` of
+`C06_reference_exact` can only answer `true` on an output of the model: the three agree -/
+theorem C06_model_agrees_references (A : TA) (Sg : List (Nat × Nat)) (f₁ f₂ f₃ : Nat) (C D : TA) (b : Bool)
+    (h₁ : Compl.complTD A Sg f₁ = some C) :
+    (Compl.complRef A Sg f₂ = some D → ∀ t, accepts C t = accepts D t) ∧
+    (isComplM C A Sg f₃ = some b → b = true) :=
+  ⟨fun h₂ => Compl.complTD_equiv_complRef h₁ h₂,
+    fun h₃ => (isComplM_iff C A Sg f₃ b h₃).mpr (Compl.complTD_spec h₁)⟩
+
+example : (do let C ← Compl.complRef Compl.Ex.aLeft Compl.Ex.sg3 20; let D ← Compl.complTD Compl.Ex.aLeft Compl.Ex.sg3 50
+              equivM C D 50) = some true := by decide +kernel
+example : (match Compl.complTD Compl.Ex.aLeft Compl.Ex.sg 20 with
+    | some C => isComplM C Compl.Ex.aLeft Compl.Ex.sg 50
+    | none => none) = some true := by decide
+
 /-!
 ## not yet proved
 
-* Everything about the construction itself: there is no executable model of `Complement` (macro-state cache, choice
-  functions over the rules of a macro-state, final useless-state removal), hence no theorem "the model of Complement
-  is a complement".  The property is a correspondence-check-only claim against `C06_reference_exact`.
-* No totality theorem for `isComplM` (it returns `none` on too little fuel; every `some` is exact).
+* **The preorder.**  `ExplicitDownwardComplementation::Compute` is parametrised by a preorder on the states;
+  `Complement` instantiates it with the identity, and only this instance is modelled (with it
+  `post[i].contains/refine/insert` followed by `std::sort` is `normS`).  Nothing is proved for a non-trivial preorder.
+* **Container orders.**  `todo` is an address-ordered hash set in the C++, FIFO in the model; the numbers of the
+  macro-states therefore differ, the automata agree up to this renumbering.  "The model returns the same automaton as the
+  code up to renaming" is checked by the correspondence check (language equality with the reference), not proved.
+* **The alphabet.**  That the symbol dictionary of the on-the-fly alphabet holds exactly the ranked symbols `Sg` handed
+  to the model – in particular that a symbol is registered with ONE rank – is an assumption about the caller; symbols
+  that occur in `A` but not in `Sg` are simply not complemented by the model (second clause of `C06_model_exact`).
+* No totality theorem for the decider `isComplM` (it returns `none` on too little fuel; every `some` is exact).  The two
+  constructions `complTD` and `complRef` are total with explicit exponential bounds (`C06_model_total`,
+  `C06_reference_construction_exact`); the bounds are not tight.
 -/
 end Vata.Props
